@@ -14,3 +14,8 @@ try:
         pass
 except ImportError:
     pass
+
+# what this property says about text on the stream rests on the write path of Output / SectionOutput / IO (the text reaches
+# the stream iff the gate allows it): those contracts (C10) are re-verified as part of this property
+from . import C10 as _c10  # noqa: E402
+TARGETS += [t for t in _c10.TARGETS if t not in TARGETS]
